@@ -36,7 +36,7 @@ pub broadcast axiom fn axiom_tid_key_model()
 pub broadcast axiom fn axiom_aid_key_model()
     ensures #[trigger] obeys_key_model::<ActorId>();
 pub broadcast group group_keys {
-    axiom_kind_key_model, axiom_tid_key_model, axiom_aid_key_model,
+    axiom_kind_key_model, axiom_tid_key_model, axiom_aid_key_model, axiom_key_borrows_self,
 }
 
 /// derived Clone returns an equal value (A-clone; R10 replaces the derive by this impl)
@@ -61,7 +61,10 @@ impl Copy for ExecutionKind {}
 // ===========================================================================
 // ghost state (DESIGN §5)
 // ===========================================================================
-pub enum Word { Ok, Invalidated }
+/// a status word received from a dependency
+pub enum RWord { Ok, Invalidated }
+/// the latest status word sent to a peer; `at` = number of events delivered when it was sent
+pub enum Word { Ok { actual: bool, at: nat }, Invalidated }
 
 /// one delivered event = one `select!` arm firing
 pub enum Ev {
@@ -79,14 +82,26 @@ pub ghost struct StartRec {
     pub cancel: int,
 }
 
+/// What one actor received and what it sent, summarised (DESIGN §5.1).  Sends are summarised by
+/// the fields below rather than kept as a sequence: the order in which a HashSet of requesters
+/// is walked is not determined, and no property depends on it.
 pub tracked struct Trace {
+    /// identity of the actor this trace belongs to
+    pub ghost me: TargetId,
     pub ghost inlog: Seq<Ev>,
-    pub ghost out: Seq<TargetActorOutputMessage>,
     /// latest status word sent to each (peer, kind)
     pub ghost last: Map<(ActorId, ExecutionKind), Word>,
-    /// (requester, kind) pairs that ever un-registered
+    /// (dest, kind) pairs to which a `Requested` was sent
+    pub ghost requested: Set<(ActorId, ExecutionKind)>,
+    /// (requester, kind) pairs that ever un-registered (delivered `Unrequested`)
     pub ghost unreq: Set<(ActorId, ExecutionKind)>,
+    /// an `Unrequested` was sent
     pub ghost sent_unreq: bool,
+    /// [C01.identity] every message sent so far named this actor
+    pub ghost ids_ok: bool,
+    /// number of messages sent, and how many of them were execution errors
+    pub ghost n_out: nat,
+    pub ghost n_err: nat,
     pub ghost starts: Seq<StartRec>,
     /// the last completed run of the build future was Skipped or Completed and nothing was started since
     pub ghost last_done_ok: bool,
@@ -97,14 +112,6 @@ pub tracked struct Trace {
     pub ghost spawned: Set<int>,
     pub ghost killed: Set<int>,
     pub ghost waited: Set<int>,
-}
-
-pub open spec fn word_of(msg: ActorInputMessage) -> Option<(ExecutionKind, Word)> {
-    match msg {
-        ActorInputMessage::Ok { kind, .. } => Some((kind, Word::Ok)),
-        ActorInputMessage::Invalidated { kind, .. } => Some((kind, Word::Invalidated)),
-        _ => None,
-    }
 }
 
 /// [C01.identity] every status word carries the sender's own id; requests name the sender as requester
@@ -120,22 +127,24 @@ pub open spec fn msg_id_ok(m: TargetActorOutputMessage, me: TargetId) -> bool {
     }
 }
 
-pub open spec fn out_ids_ok(out: Seq<TargetActorOutputMessage>, me: TargetId) -> bool {
-    forall|i: int| 0 <= i < out.len() ==> msg_id_ok(#[trigger] out[i], me)
-}
-
 impl Trace {
     pub open spec fn sent(self, m: TargetActorOutputMessage) -> Trace {
         Trace {
-            out: self.out.push(m),
             last: match m {
-                TargetActorOutputMessage::MessageActor { dest, msg } => match word_of(msg) {
-                    Some((kind, w)) => self.last.insert((dest, kind), w),
-                    None => self.last,
-                },
+                TargetActorOutputMessage::MessageActor { dest, msg: ActorInputMessage::Ok { kind, actual, .. } } =>
+                    self.last.insert((dest, kind), Word::Ok { actual, at: self.inlog.len() }),
+                TargetActorOutputMessage::MessageActor { dest, msg: ActorInputMessage::Invalidated { kind, .. } } =>
+                    self.last.insert((dest, kind), Word::Invalidated),
                 _ => self.last,
             },
+            requested: match m {
+                TargetActorOutputMessage::MessageActor { dest, msg: ActorInputMessage::Requested { kind, .. } } => self.requested.insert((dest, kind)),
+                _ => self.requested,
+            },
             sent_unreq: self.sent_unreq || (m matches TargetActorOutputMessage::MessageActor { msg: ActorInputMessage::Unrequested { .. }, .. }),
+            ids_ok: self.ids_ok && msg_id_ok(m, self.me),
+            n_out: self.n_out + 1,
+            n_err: if m is TargetExecutionError { self.n_err + 1 } else { self.n_err },
             ..self
         }
     }
@@ -154,6 +163,17 @@ impl Trace {
         }
     }
     pub open spec fn live(self) -> Set<int> { self.spawned.difference(self.waited) }
+    /// the peer's latest word of kind `k` from this actor is `Ok`
+    pub open spec fn told_ok(self, r: ActorId, k: ExecutionKind) -> bool {
+        self.last.contains_key((r, k)) && self.last[(r, k)] is Ok
+    }
+    /// nothing was sent, started, spawned or delivered between `self` and `o` except status words / requests
+    pub open spec fn same_but_sends(self, o: Trace) -> bool {
+        &&& self.me == o.me && self.inlog == o.inlog && self.unreq == o.unreq && self.starts == o.starts
+        &&& self.last_done_ok == o.last_done_ok && self.watcher_present == o.watcher_present
+        &&& self.cancels_sent == o.cancels_sent && self.spawned == o.spawned && self.killed == o.killed && self.waited == o.waited
+        &&& self.n_err == o.n_err
+    }
 }
 
 /// the set of dependencies whose latest word of kind `k` is not `Ok` (DESIGN §5.2)
@@ -173,16 +193,31 @@ pub open spec fn unavail_of(deps: Set<TargetId>, log: Seq<Ev>, k: ExecutionKind)
 }
 
 /// the latest status word received from `d` for kind `k`
-pub open spec fn last_word(log: Seq<Ev>, k: ExecutionKind, d: TargetId) -> Option<Word>
+pub open spec fn last_word(log: Seq<Ev>, k: ExecutionKind, d: TargetId) -> Option<RWord>
     decreases log.len()
 {
     if log.len() == 0 {
         None
     } else {
         match log.last() {
-            Ev::Msg(Some(ActorInputMessage::Ok { kind, target_id, .. })) => if kind == k && target_id == d { Some(Word::Ok) } else { last_word(log.drop_last(), k, d) },
-            Ev::Msg(Some(ActorInputMessage::Invalidated { kind, target_id })) => if kind == k && target_id == d { Some(Word::Invalidated) } else { last_word(log.drop_last(), k, d) },
+            Ev::Msg(Some(ActorInputMessage::Ok { kind, target_id, .. })) => if kind == k && target_id == d { Some(RWord::Ok) } else { last_word(log.drop_last(), k, d) },
+            Ev::Msg(Some(ActorInputMessage::Invalidated { kind, target_id })) => if kind == k && target_id == d { Some(RWord::Invalidated) } else { last_word(log.drop_last(), k, d) },
             _ => last_word(log.drop_last(), k, d),
+        }
+    }
+}
+
+/// dependencies that ever reported `Ok { kind: k, actual: true }`
+pub open spec fn actual_of(log: Seq<Ev>, k: ExecutionKind) -> Set<TargetId>
+    decreases log.len()
+{
+    if log.len() == 0 {
+        Set::empty()
+    } else {
+        let p = actual_of(log.drop_last(), k);
+        match log.last() {
+            Ev::Msg(Some(ActorInputMessage::Ok { kind, target_id, actual })) => if kind == k && actual { p.insert(target_id) } else { p },
+            _ => p,
         }
     }
 }
@@ -190,8 +225,7 @@ pub open spec fn last_word(log: Seq<Ev>, k: ExecutionKind, d: TargetId) -> Optio
 /// a dependency is outside the pending set exactly when its latest word is Ok
 pub proof fn lemma_unavail_last_word(deps: Set<TargetId>, log: Seq<Ev>, k: ExecutionKind, d: TargetId)
     ensures
-        deps.contains(d) ==> (!unavail_of(deps, log, k).contains(d) <==> last_word(log, k, d) == Some(Word::Ok)),
-        !deps.contains(d) ==> (unavail_of(deps, log, k).contains(d) <==> last_word(log, k, d) == Some(Word::Invalidated)),
+        deps.contains(d) ==> (!unavail_of(deps, log, k).contains(d) <==> last_word(log, k, d) == Some(RWord::Ok)),
     decreases log.len()
 {
     if log.len() > 0 {
@@ -257,6 +291,82 @@ impl Sender<BuildCancellationMessage> {
     { unimplemented!() }
 }
 
+
+// ===========================================================================
+// broadcast summaries
+// ===========================================================================
+/// the status word carried by a message, as it will be recorded in `last` when sent after `at` deliveries
+pub open spec fn word_of(msg: ActorInputMessage, at: nat) -> Option<(ExecutionKind, Word)> {
+    match msg {
+        ActorInputMessage::Ok { kind, actual, .. } => Some((kind, Word::Ok { actual, at })),
+        ActorInputMessage::Invalidated { kind, .. } => Some((kind, Word::Invalidated)),
+        _ => None,
+    }
+}
+
+/// `l1` is `l0` with the word `w` recorded for every (r, k), r in rs — and nothing else touched
+pub open spec fn bcast_last(l0: Map<(ActorId, ExecutionKind), Word>, l1: Map<(ActorId, ExecutionKind), Word>, rs: Set<ActorId>, k: ExecutionKind, w: Word) -> bool {
+    forall|key: (ActorId, ExecutionKind)| #![trigger l1.contains_key(key)] #![trigger l0.contains_key(key)] #![trigger l1[key]]
+        (l1.contains_key(key) <==> (l0.contains_key(key) || (rs.contains(key.0) && key.1 == k)))
+        && (l1.contains_key(key) ==> l1[key] == (if rs.contains(key.0) && key.1 == k { w } else { l0[key] }))
+}
+
+/// the trace effect of telling the word `w` of kind `k` to every member of `rs`
+pub open spec fn bcast_word(t0: Trace, t1: Trace, rs: Set<ActorId>, k: ExecutionKind, w: Word) -> bool {
+    &&& t1.same_but_sends(t0)
+    &&& t1.requested == t0.requested && t1.sent_unreq == t0.sent_unreq
+    &&& t1.n_out == t0.n_out + rs.len()
+    &&& bcast_last(t0.last, t1.last, rs, k, w)
+}
+
+pub broadcast proof fn lemma_take_all<A>(s: Seq<A>)
+    ensures #[trigger] s.take(s.len() as int) == s
+{
+    assert(s.take(s.len() as int) =~= s);
+}
+
+/// the trace after sending `msg` to each target of `dests`, in order
+pub open spec fn sent_to_seq(t: Trace, dests: Seq<TargetId>, msg: ActorInputMessage) -> Trace
+    decreases dests.len()
+{
+    if dests.len() == 0 {
+        t
+    } else {
+        sent_to_seq(t, dests.drop_last(), msg).sent(TargetActorOutputMessage::MessageActor { dest: ActorId::Target(dests.last()), msg })
+    }
+}
+
+/// what `sent_to_seq` does to the summary fields when `msg` is a request / un-request
+pub proof fn lemma_sent_to_seq_request(t: Trace, dests: Seq<TargetId>, msg: ActorInputMessage)
+    requires !(msg is Ok), !(msg is Invalidated),
+    ensures
+        sent_to_seq(t, dests, msg).same_but_sends(t),
+        sent_to_seq(t, dests, msg).last == t.last,
+        sent_to_seq(t, dests, msg).n_out == t.n_out + dests.len(),
+        t.ids_ok && msg_id_ok(TargetActorOutputMessage::MessageActor { dest: ActorId::Root, msg }, t.me) ==> sent_to_seq(t, dests, msg).ids_ok,
+        msg matches ActorInputMessage::Requested { kind, .. } ==> {
+            &&& sent_to_seq(t, dests, msg).sent_unreq == t.sent_unreq
+            &&& forall|d: TargetId| dests.contains(d) ==> #[trigger] sent_to_seq(t, dests, msg).requested.contains((ActorId::Target(d), kind))
+            &&& forall|key: (ActorId, ExecutionKind)| t.requested.contains(key) ==> #[trigger] sent_to_seq(t, dests, msg).requested.contains(key)
+        },
+        msg is Unrequested ==> sent_to_seq(t, dests, msg).requested == t.requested,
+    decreases dests.len()
+{
+    if dests.len() > 0 {
+        lemma_sent_to_seq_request(t, dests.drop_last(), msg);
+        let p = sent_to_seq(t, dests.drop_last(), msg);
+        assert(dests.drop_last().push(dests.last()) =~= dests);
+        if let ActorInputMessage::Requested { kind, .. } = msg {
+            assert forall|d: TargetId| dests.contains(d) implies #[trigger] sent_to_seq(t, dests, msg).requested.contains((ActorId::Target(d), kind)) by {
+                if d != dests.last() {
+                    let i = choose|i: int| 0 <= i < dests.len() && dests[i] == d;
+                    assert(dests.drop_last()[i] == d);
+                }
+            }
+        }
+    }
+}
+
 // ===========================================================================
 // TargetActorHelper
 // ===========================================================================
@@ -318,6 +428,144 @@ impl TargetActorHelper {
 //@pre
         broadcast use group_keys;
         broadcast use vstd::std_specs::hash::group_hash_axioms;
+//@end
+
+
+//@fn src/engine/target_actor/target_actor_helper.rs TargetActorHelper::notify_invalidated
+//@contract
+    requires
+        old(self).wf(),
+        old(self).to_execute ==> !old(self).executed,
+    ensures
+        final(self).wf(), final(self).same_static(old(self)),
+        final(self).unavailable_dependencies == old(self).unavailable_dependencies,
+        final(self).requesters == old(self).requesters,
+        /*[C06.invalidate]*/ final(self).to_execute && !final(self).executed,
+        /*[C06.invalidate]*/ old(self).to_execute ==> *final(tr) == *old(tr),
+        /*[C06.invalidate]*/ !old(self).to_execute ==> bcast_word(*old(tr), *final(tr), old(self).req(kind), kind, Word::Invalidated),
+        !old(self).to_execute && old(self).target_id == old(tr).me ==> final(tr).ids_ok == old(tr).ids_ok,
+//@end
+
+//@fn src/engine/target_actor/target_actor_helper.rs TargetActorHelper::set_execution_started
+//@contract
+    ensures
+        final(self).same_static(old(self)),
+        final(self).unavailable_dependencies == old(self).unavailable_dependencies,
+        final(self).requesters == old(self).requesters,
+        /*[C08.once-local]*/ !final(self).to_execute && !final(self).executed,
+//@end
+
+//@fn src/engine/target_actor/target_actor_helper.rs TargetActorHelper::notify_execution_failed
+//@contract
+    ensures
+        final(self).same_static(old(self)),
+        final(self).unavailable_dependencies == old(self).unavailable_dependencies,
+        final(self).requesters == old(self).requesters,
+        /*[C07.no-retry]*/ final(self).to_execute == old(self).to_execute,
+        /*[C07.no-ack-on-failure,C05.no-ack]*/ !final(self).executed,
+        /*[C07.no-ack-on-failure,C05.no-ack]*/ *final(tr) == old(tr).sent(TargetActorOutputMessage::TargetExecutionError(old(self).target_id, e)),
+//@end
+
+//@fn src/engine/target_actor/target_actor_helper.rs TargetActorHelper::send_to_actor
+//@contract
+    ensures
+        *final(tr) == old(tr).sent(TargetActorOutputMessage::MessageActor { dest, msg }),
+//@end
+
+//@fn src/engine/target_actor/target_actor_helper.rs TargetActorHelper::send_to_dependencies
+//@contract
+    ensures
+        *final(tr) == sent_to_seq(*old(tr), self.dependencies@, msg),
+//@pre
+        broadcast use lemma_take_all;
+//@loop 0 binder=it
+            invariant
+                it.seq().unref() == self.dependencies@,
+                *tr == sent_to_seq(*old(tr), self.dependencies@.take(it.index@ as int), msg),
+//@loopbody
+            proof {
+                let h = self.dependencies@.take(it.index@ as int);
+                let h2 = self.dependencies@.take(it.index@ as int + 1);
+                assert(h2.drop_last() =~= h);
+                assert(h2.last() == *dependency);
+            }
+//@end
+
+//@fn src/engine/target_actor/target_actor_helper.rs TargetActorHelper::send_to_requesters
+//@contract
+    requires
+        self.wf(),
+    ensures
+        final(tr).same_but_sends(*old(tr)),
+        final(tr).n_out == old(tr).n_out + self.req(kind).len(),
+        msg_id_ok(TargetActorOutputMessage::MessageActor { dest: ActorId::Root, msg }, old(tr).me) ==> final(tr).ids_ok == old(tr).ids_ok,
+        word_of(msg, old(tr).inlog.len()) matches Some((k, w)) ==> bcast_last(old(tr).last, final(tr).last, self.req(kind), k, w),
+        word_of(msg, old(tr).inlog.len()) is Some ==> final(tr).requested == old(tr).requested && final(tr).sent_unreq == old(tr).sent_unreq,
+//@pre
+        broadcast use group_keys;
+        broadcast use vstd::std_specs::hash::group_hash_axioms;
+        broadcast use lemma_take_all;
+//@loop 0 set binder=it
+            invariant
+                self.wf(),
+                it.seq().unref().to_set() == self.req(kind),
+                it.seq().len() == self.req(kind).len(),
+                tr.same_but_sends(*old(tr)),
+                tr.n_out == old(tr).n_out + it.index@,
+                msg_id_ok(TargetActorOutputMessage::MessageActor { dest: ActorId::Root, msg }, old(tr).me) ==> tr.ids_ok == old(tr).ids_ok,
+                word_of(msg, old(tr).inlog.len()) matches Some((k, w)) ==> bcast_last(old(tr).last, tr.last, it.seq().take(it.index@ as int).unref().to_set(), k, w),
+                word_of(msg, old(tr).inlog.len()) is Some ==> tr.requested == old(tr).requested && tr.sent_unreq == old(tr).sent_unreq,
+//@loopbody
+            proof {
+                let h = it.seq().take(it.index@ as int);
+                let h2 = it.seq().take(it.index@ as int + 1);
+                assert(h2 =~= h.push(requester));
+                assert(h2.unref() =~= h.unref().push(*requester));
+                h.unref().lemma_push_to_set_commute(*requester);
+            }
+//@end
+
+//@fn src/engine/target_actor/target_actor_helper.rs TargetActorHelper::notify_success
+//@contract
+    requires
+        old(self).wf(),
+    ensures
+        final(self).wf(), final(self).same_static(old(self)),
+        final(self).unavailable_dependencies == old(self).unavailable_dependencies,
+        final(self).requesters == old(self).requesters,
+        final(self).to_execute == old(self).to_execute,
+        /*[C06.no-stale-ack,C01.ok-build]*/ final(self).executed == !old(self).to_execute,
+        /*[C06.no-stale-ack,C01.ok-build]*/ old(self).to_execute ==> *final(tr) == *old(tr),
+        /*[C04.ack]*/ !old(self).to_execute ==> bcast_word(*old(tr), *final(tr), old(self).req(kind), kind, Word::Ok { actual: true, at: old(tr).inlog.len() }),
+        !old(self).to_execute && old(self).target_id == old(tr).me ==> final(tr).ids_ok == old(tr).ids_ok,
+//@end
+
+//@fn src/engine/target_actor/target_actor_helper.rs TargetActorHelper::request_dependencies
+//@contract
+    ensures
+        *final(tr) == sent_to_seq(*old(tr), self.dependencies@, ActorInputMessage::Requested { kind, requester: ActorId::Target(self.target_id) }),
+//@end
+
+//@fn src/engine/target_actor/target_actor_helper.rs TargetActorHelper::handle_unrequested ret=r
+//@contract
+    requires
+        old(self).wf(),
+    ensures
+        final(self).wf(), final(self).same_static(old(self)),
+        final(self).unavailable_dependencies == old(self).unavailable_dependencies,
+        final(self).to_execute == old(self).to_execute, final(self).executed == old(self).executed,
+        final(self).req(kind) == old(self).req(kind).remove(requester),
+        forall|k: ExecutionKind| k != kind ==> final(self).req(k) == old(self).req(k),
+        r == (old(self).req(kind).contains(requester) && final(self).req(kind).len() == 0),
+//@pre
+        broadcast use group_keys;
+        broadcast use vstd::std_specs::hash::group_hash_axioms;
+//@end
+
+//@fn src/engine/target_actor/target_actor_helper.rs TargetActorHelper::unrequest_dependencies
+//@contract
+    ensures
+        *final(tr) == sent_to_seq(*old(tr), self.dependencies@, ActorInputMessage::Unrequested { kind, requester: ActorId::Target(self.target_id) }),
 //@end
 
 }
